@@ -3,6 +3,7 @@ package main
 import (
 	"fmt"
 	"go/token"
+	"go/types"
 	"strings"
 
 	"golang.org/x/tools/go/ssa"
@@ -351,6 +352,61 @@ func c02(c *ctx) {
 			got := c.p.path(argOf(cs, 0))
 			r.Check(got == "$1.LastQuorumCertificate", "R6/indexed-value", c.p.Pos(cs.Pos()), "IndexQC("+got+")", "IndexQC receives "+got+", not the candidate's LastQuorumCertificate that was checked")
 		}
+	}
+
+	// ------------------------------------------------------------------ R7
+	r.Rule("R7", "MPT+WHO", "aggregate-signature verification is unconditional: BLS12381MultiPublicKey.VerifyBytes can return true only after scheme.Verify succeeded for the key aggregated from its own signer mask; the process-wide signature cache (whose keys do not include a signer bitmap) is touched only by the single-key helpers", 4)
+	multiVerify := c.fn("lib/crypto.(*BLS12381MultiPublicKey).VerifyBytes")
+	if multiVerify != nil {
+		c.mpt(mptSpec{
+			rule: "R7", fn: multiVerify,
+			events: evSet{},
+			extraEv: func(in ssa.Instruction) string {
+				if cc := callCommon(in); cc != nil {
+					if sc := cc.StaticCallee(); sc != nil && sc.Name() == "Verify" && len(cc.Args) >= 2 && strings.Contains(c.p.path(cc.Args[1]), "AggregatePublicKeys($0.mask)") {
+						return "scheme.Verify"
+					}
+					if cc.IsInvoke() && cc.Method.Name() == "Verify" && len(cc.Args) >= 1 && strings.Contains(c.p.path(cc.Args[0]), "AggregatePublicKeys($0.mask)") {
+						return "scheme.Verify"
+					}
+				}
+				return ""
+			},
+			target:    tgtReturnVal("true-return", 0, true),
+			reqs:      func(string) []string { return []string{"scheme.Verify#0=T"} },
+			minTarget: 1,
+		})
+	}
+	var sigCache types.Object
+	if cp := c.p.pkg("lib/crypto"); cp != nil {
+		sigCache = cp.Types.Scope().Lookup("SignatureCache")
+	}
+	if r.Anchor(sigCache != nil, "crypto.SignatureCache") {
+		allowed := map[string]string{
+			"lib/crypto.CheckCache":                   "single-key cache helper: key = (public key bytes, message, signature)",
+			"(*lib/crypto.BatchVerifier).verifyAll": "batch verifier: key = BatchTuple.Key() of a single public key",
+			"lib/crypto.init":                         "creation of the cache",
+		}
+		n := 0
+		for _, f := range c.p.Funcs {
+			if isTestFile(c.p, f.Pos()) {
+				continue
+			}
+			instrs(f, func(in ssa.Instruction) {
+				for _, op := range in.Operands(nil) {
+					if g, ok := (*op).(*ssa.Global); ok && g.Object() == sigCache {
+						n++
+						enc := fnName(enclosing(f))
+						if reason, ok := allowed[enc]; ok {
+							r.OK("R7/SignatureCache-access/"+enc, c.p.Pos(in.Pos()), reason)
+						} else {
+							r.Bad("R7/SignatureCache-access/"+enc, c.p.Pos(in.Pos()), "the process-wide signature cache is accessed in "+enc+", outside the single-key helpers {CheckCache, BatchVerifier.verifyAll}: a cached verdict there is not tied to the signer set that is being credited")
+						}
+					}
+				}
+			})
+		}
+		r.Analysed["signature_cache_accesses"] = n
 	}
 }
 
